@@ -169,7 +169,7 @@ C03_UNITS = _c03_one_draw() + [
           kind="bounded", tier="thorough", bound="one iteration of the rejection loop (unwind 1, no unwinding assertion); every iteration starts from the same state", timeout=3600, extra=["--no-unwinding-checks"],
           stubs=["pow", "log", "exp", "floor"], replay={"kind": "sampler", "id": "zipf", "float": "f64"}),
     plain("c03_zeta_step_f64", "c03", ["C03"], "Zeta::sample (one iteration)", "src/zeta.rs", [("s", "f64"), ("words", "words2")],
-          "all s in E, all words: the value is >= 1 and not NaN; the internal debug_assert!(x >= 1) holds",
+          "all s in E, all words: the value is >= 1 and not NaN, and finite for s >= 2 (no pole of pow reached); the internal debug_assert!(x >= 1) holds",
           kind="bounded", bound="one iteration of the rejection loop (unwind 1, no unwinding assertion)", timeout=1800, extra=["--no-unwinding-checks"],
           stubs=["pow", "floor"], replay={"kind": "sampler", "id": "zeta", "float": "f64"}),
     dict(plain("kf_gumbel_inf_f64", "c03", ["C03"], "Gumbel::sample", "src/gumbel.rs", [], "pinned known finding: Gumbel(0,1) at word u64::MAX is +inf", stubs=["log"]), expect="refuted"),
@@ -241,7 +241,20 @@ WEIGHT_UNITS = [
     plain("c04_tree_f32_invalid_weight_rejected", "weights", ["C04", "C09"], "WeightedTreeIndex<f32>::push / update", "src/weighted/weighted_tree.rs", [("w0", "f32"), ("w1", "f32"), ("x", "f32")],
           "2-node f32 tree, every NaN or negative weight: push/update return Err(InvalidWeight) and leave the tree unchanged", kind="bounded", bound="tree of exactly 2 nodes", timeout=900),
 ]
-WEIGHT_UNITS[-1]["tier_by_prop"] = {"C09": "thorough"}      # 2-4 minutes: quick for C04, thorough for C09 (whose quick tier is the 15 s Verus proof)
+WEIGHT_UNITS[-1]["tier_by_prop"] = {"C09": "thorough"}
+_RR_TYPES = ("u8", "u16", "i8", "i16")     # sample type u32 (32x32 symbolic multiplier: 6-100 s).  u32 did not close in 13 min; 64/128-bit sample types not reached
+WEIGHT_UNITS += [
+    plain("rand_random_range_%s" % t, "weights", ["C10"], "rand::RngExt::random_range::<%s> (UniformInt::sample_single, Canon's method)" % t, "(rand 0.10.2) src/distr/uniform_int.rs",
+          [("low", t), ("high", t), ("words", "words4")], "every low < high, every word: low <= t < high - the contract the Verus tree proof ASSUMES for the target draw, discharged on rand's real code (loop-free: complete)",
+          tier="quick" if t in ("u8", "i8") else "thorough", solver="kissat", timeout=1800)
+    for t in _RR_TYPES
+] + [
+    plain("rand_uniform_sample_%s" % t, "weights", ["C08"], "rand::distr::Uniform::<%s>::new / sample (Lemire's method)" % t, "(rand 0.10.2) src/distr/uniform_int.rs",
+          [("low", t), ("high", t), ("words", "words4")], "Uniform::new(low, high) is Ok iff low < high; every word: low <= sample < high - the contract the Verus alias proof ASSUMES for both draws, discharged on rand's real code",
+          kind="bounded", bound="one iteration of Lemire's rejection loop (stateless loop: every iteration draws a fresh word)", extra=["--no-unwinding-checks"],
+          tier="quick" if t in ("u8", "i8") else "thorough", solver="kissat", timeout=1800)
+    for t in _RR_TYPES
+]      # 2-4 minutes: quick for C04, thorough for C09 (whose quick tier is the 15 s Verus proof)
 WEIGHT_UNITS += [
     dict(plain("kf_tree_f32_rounding_panics", "weights", ["C10"], "WeightedTreeIndex<f32>::try_sample", "src/weighted/weighted_tree.rs", [],
                "pinned known finding: WeightedTreeIndex::<f32>::new([2.5449841e19, 3.5183273e16]) is_valid() but try_sample panics for word 0xffffffff"), expect="refuted"),
